@@ -6,7 +6,9 @@
     * `SecurityContext._check_signature`: certificate selection and the verification loop (sigver.py)
     * `CryptoBackendXmlSec1.validate_signature`: the xmlsec1 command line, against the key-selection
       semantics of the xmlsec1 stand-in (DESIGN.md 5.1)
-    * `Request._do_redirect_sig_check` + `verify_redirect_signature`        (request.py, sigver.py)
+    * `Request._do_redirect_sig_check` + `verify_redirect_signature` + `extract_rsa_key_from_x509_cert`
+      + `RSASigner.verify` (`key or self.key`)                              (request.py, sigver.py)
+    * the `issuer=` argument of `_check_signature` as `AuthnResponse.parse_assertion` uses it (response.py)
 
   `ι` = entity identifiers, `κ` = keys.  A certificate is identified with the public key it carries;
   signatures are ideal: a signature made with key `k` verifies under key `k'` iff `k' = k`
@@ -104,6 +106,12 @@ def embeddedKey (ki : KeyInfo κ) : Option κ :=
   | c :: _ => some c
   | [] => ki.rsa
 
+/-- What a published certificate is to a verifier: an RSA certificate; a well-formed certificate
+    with another kind of public key (EC, Ed25519, DSA); bytes that are not a certificate. -/
+inductive CertKind where
+  | rsa | other | malformed
+deriving DecidableEq, Repr
+
 /-- The key xmlsec1 checks the signature value with when it is given `--pubkey-cert-pem cert`:
     with `--enabled-key-data raw-x509-cert` (`restricted`) only that certificate's key; without the
     restriction an embedded key is preferred (the CVE-2021-21239 behaviour). -/
@@ -113,16 +121,24 @@ def verifyKey (restricted : Bool) (cert : κ) (ki : KeyInfo κ) : κ :=
     | some k => k
     | none => cert
 
-def verifies (restricted : Bool) (cert : κ) (m : Msg ι κ) : Bool :=
-  decide (m.signer = some (verifyKey restricted cert m.keyInfo))
+/-- One xmlsec1 `--verify` run with certificate `cert` (signatures are RSA signatures): a certificate
+    file that cannot be loaded is an xmlsec error, a non-RSA key never verifies (both: the loop of
+    `_check_signature` goes on to the next certificate). -/
+def verifies (restricted : Bool) (kindOf : κ → CertKind) (cert : κ) (m : Msg ι κ) : Bool :=
+  match kindOf cert with
+  | .malformed => false
+  | .other => !restricted && (match embeddedKey m.keyInfo with
+                              | some k => decide (m.signer = some k)
+                              | none => false)
+  | .rsa => decide (m.signer = some (verifyKey restricted cert m.keyInfo))
 
 /-- The `for pem_fd in certs` loop: (verified, certificates handed to the verifier so far). -/
-def tryCerts (restricted : Bool) (m : Msg ι κ) : List κ → Bool × List κ
+def tryCerts (restricted : Bool) (kindOf : κ → CertKind) (m : Msg ι κ) : List κ → Bool × List κ
   | [] => (false, [])
   | c :: rest =>
-    if verifies restricted c m then (true, [c])
+    if verifies restricted kindOf c m then (true, [c])
     else
-      let r := tryCerts restricted m rest
+      let r := tryCerts restricted kindOf m rest
       (r.1, c :: r.2)
 
 /-- Certificate selection of `_check_signature`: metadata first (`except KeyError: _certs = []`);
@@ -135,7 +151,7 @@ def selectCerts (order : List RoleKind) (onlyMd : Bool) (md : Metadata ι κ) (m
   if fromMd.isEmpty && !onlyMd then m.keyInfo.certs else fromMd
 
 inductive Verdict where
-  | accepted | missingKey | badSignature | lookupFailed
+  | accepted | missingKey | badSignature | lookupFailed | verifyRaised
 deriving DecidableEq, Repr
 
 structure Result (κ : Type) where
@@ -143,33 +159,95 @@ structure Result (κ : Type) where
   handed : List κ
 deriving Repr
 
-/-- `SecurityContext._check_signature` (the key question only: the item is otherwise valid). -/
-def checkSignature (restricted : Bool) (order : List RoleKind) (onlyMd : Bool) (md : Metadata ι κ)
-    (m : Msg ι κ) : Result κ :=
+/-- `SecurityContext._check_signature` for an item that names its issuer itself (or none, with no
+    `issuer=` argument); the key question only: the item is otherwise valid. -/
+def checkSignature (restricted : Bool) (kindOf : κ → CertKind) (order : List RoleKind) (onlyMd : Bool)
+    (md : Metadata ι κ) (m : Msg ι κ) : Result κ :=
   let certs := selectCerts order onlyMd md m
   if certs.isEmpty then ⟨.missingKey, []⟩
   else
-    let r := tryCerts restricted m certs
+    let r := tryCerts restricted kindOf m certs
     ⟨if r.1 then .accepted else .badSignature, r.2⟩
 
-/-- `Request._do_redirect_sig_check`: metadata certificates only, no fallback; a failing lookup
-    raises and the request is refused.  `verify_redirect_signature` checks with the given
-    certificate's key (no `KeyInfo` exists in this binding). -/
-def redirectCheck (order : List RoleKind) (md : Metadata ι κ) (issuer : Option ι) (signer : Option κ) :
-    Result κ :=
+/-- `_issuer = item.issuer.text.strip()`, and only when the item has none, the caller's `issuer=`. -/
+def effIssuer (arg : Option ι) (m : Msg ι κ) : Option ι :=
+  match m.issuer with
+  | some i => some i
+  | none => arg
+
+/-- `_check_signature(..., issuer=arg)`: everything after the first lines uses `_issuer` only. -/
+def checkSignatureArg (restricted : Bool) (kindOf : κ → CertKind) (order : List RoleKind) (onlyMd : Bool)
+    (md : Metadata ι κ) (arg : Option ι) (m : Msg ι κ) : Result κ :=
+  checkSignature restricted kindOf order onlyMd md { m with issuer := effIssuer arg m }
+
+/-- A public key object as `extract_rsa_key_from_x509_cert` hands it out: whatever key the
+    certificate holds. -/
+inductive PubKey (κ : Type) where
+  | rsa (k : κ)
+  | other
+deriving Repr
+
+/-- `extract_rsa_key_from_x509_cert(pem_format(cert))`; `none` = `load_pem_x509_certificate` raises. -/
+def extractKey (kindOf : κ → CertKind) (cert : κ) : Option (PubKey κ) :=
+  match kindOf cert with
+  | .malformed => none
+  | .rsa => some (.rsa cert)
+  | .other => some .other
+
+/-- `RSASigner.verify(msg, sig, key)` = `key_verify(key or self.key, …)`: a falsy `key` means the
+    RECEIVER's own key `own` (`RSACrypto(rsa_key)` of `security_context`); a non-RSA key object makes
+    `key_verify` return `False`. -/
+def signerVerify (own : κ) (signer : Option κ) (key : Option (PubKey κ)) : Bool :=
+  match key with
+  | none => decide (signer = some own)
+  | some (.rsa k) => decide (signer = some k)
+  | some .other => false
+
+/-- `verify_redirect_signature(saml_msg, sec_backend, cert)` for a certificate text from metadata
+    (never empty: `cert` is truthy, so `_key` is the extracted key object); `none` = raises. -/
+def redirectVerifyOne (kindOf : κ → CertKind) (own : κ) (signer : Option κ) (cert : κ) : Option Bool :=
+  match extractKey kindOf cert with
+  | none => none
+  | some pk => some (signerVerify own signer (some pk))
+
+/-- `any(verify_redirect_signature(...) for cert_name, cert in certs)`: stops at the first `True`; an
+    exception ends everything.  (outcome, certificates handed over so far); outcome `none` = raised. -/
+def tryRedirect (kindOf : κ → CertKind) (own : κ) (signer : Option κ) : List κ → Option Bool × List κ
+  | [] => (some false, [])
+  | c :: rest =>
+    match redirectVerifyOne kindOf own signer c with
+    | none => (none, [c])
+    | some true => (some true, [c])
+    | some false =>
+      let r := tryRedirect kindOf own signer rest
+      (r.1, c :: r.2)
+
+/-- `Request._do_redirect_sig_check`: metadata certificates only, no fallback; a failing lookup or a
+    raising verification is caught by `Request._loads` and the request is refused. -/
+def redirectCheck (kindOf : κ → CertKind) (own : κ) (order : List RoleKind) (md : Metadata ι κ)
+    (issuer : Option ι) (signer : Option κ) : Result κ :=
   match mdCerts order md issuer .signing with
   | none => ⟨.lookupFailed, []⟩
   | some cs =>
-    let r := tryCerts true (⟨issuer, signer, ⟨[], none⟩⟩ : Msg ι κ) cs
-    ⟨if r.1 then .accepted else .badSignature, r.2⟩
+    let r := tryRedirect kindOf own signer cs
+    ⟨match r.1 with
+      | some true => .accepted
+      | some false => .badSignature
+      | none => .verifyRaised, r.2⟩
 
-/-- How the signature travels: enveloped (`Response`, `Assertion`, request via POST/SOAP) or
-    detached over the Redirect query string, where the request may carry an enveloped signature too
-    (`Request._loads` checks an enveloped signature whenever one is present, then the detached one). -/
-inductive Kind where
+/-- How the signed item travels:
+    * `enveloped`: `Response`, `Assertion` (plain or encrypted), request / logout message via POST/SOAP;
+    * `detached env`: Redirect query-string signature, the request carrying an enveloped signature too
+      when `env` (`Request._loads` checks an enveloped signature whenever one is present, then the
+      detached one);
+    * `after first withArg`: the item is checked after another signed item `first` of the same
+      Response has been accepted — an (encrypted) advice assertion inside assertion `first`
+      (`withArg = true`: `parse_assertion` passes `issuer=first.issuer`), or an encrypted assertion
+      next to the plain assertion `first` (`withArg = false`). -/
+inductive Kind (ι κ : Type) where
   | enveloped
   | detached (withEnveloped : Bool)
-deriving DecidableEq, Repr
+  | after (first : Msg ι κ) (withArg : Bool)
 
 structure Out (κ : Type) where
   accepted : Bool
@@ -177,18 +255,24 @@ structure Out (κ : Type) where
   handedR : List κ      -- certificates given to verify_redirect_signature
 deriving Repr
 
-/-- Accept/refuse of a signed message by the receiving entity. -/
-def accept (restricted : Bool) (order : List RoleKind) (onlyMd : Bool) (md : Metadata ι κ) (kind : Kind)
-    (m : Msg ι κ) : Out κ :=
+/-- Accept/refuse of a signed message by the receiving entity (`own` = the receiver's own key). -/
+def accept (restricted : Bool) (kindOf : κ → CertKind) (own : κ) (order : List RoleKind) (onlyMd : Bool)
+    (md : Metadata ι κ) (kind : Kind ι κ) (m : Msg ι κ) : Out κ :=
   match kind with
   | .enveloped =>
-    let r := checkSignature restricted order onlyMd md m
+    let r := checkSignature restricted kindOf order onlyMd md m
     ⟨decide (r.verdict = .accepted), r.handed, []⟩
   | .detached env =>
-    let rx : Result κ := if env then checkSignature restricted order onlyMd md m else ⟨.accepted, []⟩
+    let rx : Result κ := if env then checkSignature restricted kindOf order onlyMd md m else ⟨.accepted, []⟩
     if rx.verdict = .accepted then
-      let rr := redirectCheck order md m.issuer m.signer
+      let rr := redirectCheck kindOf own order md m.issuer m.signer
       ⟨decide (rr.verdict = .accepted), rx.handed, rr.handed⟩
     else ⟨false, rx.handed, []⟩
+  | .after first withArg =>
+    let r1 := checkSignature restricted kindOf order onlyMd md first
+    if r1.verdict = .accepted then
+      let r2 := checkSignatureArg restricted kindOf order onlyMd md (if withArg then first.issuer else none) m
+      ⟨decide (r2.verdict = .accepted), r1.handed ++ r2.handed, []⟩
+    else ⟨false, r1.handed, []⟩
 
 end Keys
